@@ -9,6 +9,7 @@ import (
 	"fmt"
 	"os"
 	"strings"
+	"time"
 )
 
 type domain interface {
@@ -36,7 +37,15 @@ func main() {
 		line, err := in.ReadString('\n')
 		if len(line) > 0 {
 			line = strings.TrimRight(line, "\r\n")
-			fmt.Fprintln(out, safeStep(d, strings.Fields(line)))
+			// a deadlock in the code under test (a mutex never released) would block this loop for ever: report it
+			watchdog := time.AfterFunc(90*time.Second, func() {
+				out.Flush() // the main loop is blocked inside the op: nobody else touches the writer
+				fmt.Fprintf(os.Stdout, "HANG `%s` did not return within 90 s\n", line)
+				os.Exit(3)
+			})
+			res := safeStep(d, strings.Fields(line))
+			watchdog.Stop()
+			fmt.Fprintln(out, res)
 			if in.Buffered() == 0 {
 				out.Flush() // nothing else queued: let an interactive caller see the answer
 			}
